@@ -8,7 +8,7 @@
    form (dict / tuple / list / bare, or an explicit AsROOTTTree with its name argument and tree name),
    the backend, and the value of cpp_vars.unique_var_index when the class variables are named.
    Executable definitions only; no proofs here. *)
-From FV Require Import Base.Prelude.
+From FV Require Import Base.Prelude Model.Consts.
 
 (* ---------- backends ---------- *)
 Inductive backend := BeAtlas | BeCmsAod | BeCmsMiniaod.
@@ -40,7 +40,7 @@ Inductive terminal :=
 (* ---------- cpp_vars.unique_name ---------- *)
 (* mirrors cpp_vars.py: unique_name (the caller threads unique_var_index) *)
 Definition unique_name (name : string) (is_class_var : bool) (index : nat) : string :=
-  (if is_class_var then "_" else "") +++ name +++ dec_nat index.
+  (if is_class_var then "_" +++ cident name else name) +++ dec_nat index.
 
 (* ---------- types ---------- *)
 Definition vector_of (t : string) : string := "std::vector<" +++ t +++ ">".
@@ -158,24 +158,24 @@ Definition class_declaration_code (cs : list column) : list string :=
   map (fun c => c_type c +++ " " +++ c_var c +++ ";") cs.
 
 Definition branch_line (c : column) : string :=
-  "myTree->Branch(""" +++ c_name c +++ """, &" +++ c_var c +++ ");".
+  "myTree->Branch(" +++ cpp_string_literal (c_name c) +++ ", &" +++ c_var c +++ ");".
 
 (* mirrors book_xaod_ttree.emit / book_cms_aod_ttree.emit / book_cms_miniaod_ttree.emit
    (miniAOD: the line as emitted once the misplaced f-prefix is repaired, i.e. the same as AOD) *)
 Definition book_emit (b : backend) (tree : string) (cs : list column) : list string :=
   match b with
   | BeAtlas =>
-      ["ANA_CHECK (book (TTree (""" +++ tree +++ """, ""My analysis ntuple"")));";
-       "auto myTree = tree (""" +++ tree +++ """);"]
+      ["ANA_CHECK (book (TTree (" +++ cpp_string_literal tree +++ ", ""My analysis ntuple"")));";
+       "auto myTree = tree (" +++ cpp_string_literal tree +++ ");"]
   | _ =>
       ["edm::Service<TFileService> fs;";
-       "myTree = fs->make<TTree>(""" +++ tree +++ """, ""My analysis ntuple"");"]
+       "myTree = fs->make<TTree>(" +++ cpp_string_literal tree +++ ", ""My analysis ntuple"");"]
   end ++ map branch_line cs.
 
 (* mirrors xaod_ttree_fill.emit / cms_*_ttree_fill.emit *)
 Definition fill_emit (b : backend) (tree : string) : string :=
   match b with
-  | BeAtlas => "tree(""" +++ tree +++ """)->Fill();"
+  | BeAtlas => "tree(" +++ cpp_string_literal tree +++ ")->Fill();"
   | _ => "myTree->Fill();"
   end.
 
